@@ -82,20 +82,30 @@ def check_program(acc, node, env, origin, cached=False):
         if agrees(out, exp):
             continue
 
-        def o(x):
-            return core.api_eval(r, lang.to_text(x), benv)
+        def o(x, extra=None):
+            return core.api_eval(r, lang.to_text(x), dict(benv, **MV.cel_env(extra)) if extra else benv)
 
-        def fails(x):
-            e = expected_of(x, env)
-            return e[0] != "U" and not agrees(o(x), e)
+        def exp_of(x, extra=None):
+            return expected_of(x, dict(env, **extra) if extra else env)
 
-        m = diag.localize(node, fails)
-        me, mo = expected_of(m, env), o(m)
+        def fails(x, extra):
+            e = exp_of(x, extra)
+            return e[0] != "U" and not agrees(o(x, extra), e)
+
+        def elements(recv, extra):
+            e = exp_of(recv, extra)
+            if e[0] != "V" or e[1][0] not in ("list", "map"):
+                return None
+            return list(e[1][1])[:2] if e[1][0] == "list" else [kv[0] for kv in e[1][1]][:2]
+
+        m, ex_b = diag.localize_scoped(node, fails, elements)
+        me, mo = exp_of(m, ex_b), o(m, ex_b)
         if me[0] == "U" or agrees(mo, me):
-            m, me, mo = node, exp, out
-        has_ops = [x for x in diag.operands(m) if x.k == "has"] + ([x for x in lang.walk(m.a[3]) if x.k == "has"] if m.k == "macro" else [])
+            m, me, mo, ex_b = node, exp, out, {}
+        env_m = dict(env, **ex_b)
+        has_ops = [x for x in lang.walk(m) if x.k == "has"]
         prefix = "consequence-of-has-native-bool " if r == "C" and has_ops and mo[0] == "E" else ""
-        slug = f"{r} {prefix}{diag.shape(m, lambda x: mclass(x, env)) if not prefix else diag.head(m)} obs={diag.oclass(mo).split('@')[0]} exp={'E' if me[0] == 'E' else 'V:' + me[1][0]}"
+        slug = f"{r} {prefix}{diag.shape(m, lambda x: mclass(x, env_m)) if not prefix else diag.head(m)} obs={diag.oclass(mo).split('@')[0]} exp={'E' if me[0] == 'E' else 'V:' + me[1][0]}"
         acc.violation(
             slug,
             f"{'interpreted' if r == 'I' else 'compiled'}: {src[:140]!r} gave {core.jkey(out)[:120]}, reference says {str(exp)[:120]}; minimal sub-expression {lang.to_text(m)[:100]!r}",
